@@ -1,7 +1,7 @@
 #!/usr/bin/env python3
 """Must-fail corpus: each patch (seeded defects that the checks catch, reverted
 fixes, own mutations) is applied to a scratch copy of /repo's working tree and
-must make a named obligation fail. usage: run.py [Cxx|all]   (exit 1 if a
+must make a named obligation fail. usage: run.py [Cxx|all] [patch-name-substring]   (exit 1 if a
 patch that applies is NOT caught; patches that no longer apply are skipped)."""
 import json, os, shutil, subprocess, sys
 HERE = os.path.dirname(os.path.abspath(__file__))
@@ -18,6 +18,8 @@ def main():
     try:
         for e in idx:
             if want != "all" and want not in e["props"]:
+                continue
+            if len(sys.argv) > 2 and sys.argv[2] not in e["patch"]:
                 continue
             shutil.rmtree(scratch, ignore_errors=True)
             subprocess.run(["rsync", "-a", "--exclude", ".git", REPO + "/", scratch + "/"], check=True)
